@@ -212,3 +212,90 @@ def compare(env, ms, exact=True):
 
 def snapshot(env):
     return [I.shape_data(S) for S in env]
+
+
+# ---------------- generation (adaptive: kinds are read off the implementation) ----------------
+def gen_history(rng, nops, nvars0=2, R=8, ops=("bin", "copy", "not", "move", "scale", "rot", "contains", "float"),
+                weights=None, gen=None):
+    """random history; transformations are only applied to non-singleton variables"""
+    from . import gen as G
+    gen = gen or (lambda: G.any_shape(rng, R=R, kinds=("S", "S", "C", "D", "U")))
+    hist, env = [], []
+    for _ in range(nvars0):
+        s = gen()
+        op = ("new", I.shape_data(I.mk_shape(s)), "frac")
+        impl_step(env, op)
+        hist.append(op)
+    weights = weights or {"bin": 3, "copy": 1, "not": 1, "move": 2, "scale": 2, "rot": 1, "contains": 1, "float": 1}
+    bag = [o for o in ops for _ in range(weights.get(o, 1))]
+    tries = 0
+    while len(hist) < nvars0 + nops and tries < 10 * nops:
+        tries += 1
+        k = rng.choice(bag)
+        x = rng.randrange(len(env))
+        single = isinstance(env[x], (I.EmptyShape, I.WholeShape))
+        if k == "bin":
+            y = rng.randrange(len(env))
+            op = ("bin", rng.choice("|&-^"), x, y)
+            # keep the operands in general position (the non-transversal class is a known finding)
+            from . import opcases as OC
+            dx, dy = I.shape_data(env[x]), I.shape_data(env[y])
+            if x == y or not OC.env_general_position([dx, dy]):
+                continue
+        elif k == "copy":
+            op = ("copy", x)
+        elif k == "not":
+            op = ("not", x)
+        elif single:
+            continue
+        elif k == "move":
+            op = ("move", x, (F(rng.randint(-12, 12), rng.choice([1, 2, 3])), F(rng.randint(-12, 12), rng.choice([1, 4]))))
+        elif k == "scale":
+            op = ("scale", x, (F(rng.randint(1, 8), rng.choice([1, 2, 3])), F(rng.randint(1, 8), rng.choice([1, 2, 5]))))
+        elif k == "rot":
+            op = ("rot", x, rng.choice([(F(3, 5), F(4, 5)), (F(0), F(1)), (F(-4, 5), F(3, 5)), (F(5, 13), F(-12, 13))]))
+        elif k == "contains":
+            op = ("contains", x, (F(rng.randint(-9, 9)), F(rng.randint(-9, 9))), rng.random() < 0.5)
+        else:
+            op = ("float", x)
+        try:
+            impl_step(env, op)
+        except Exception:
+            break                   # the history up to here is the case; the failing op is dropped
+        hist.append(op)
+    return hist
+
+
+def is_exact_history(hist):
+    return not any(op[0] == "rot" for op in hist)
+
+
+def resplit_of(d0, d1, exact=True):
+    """d1 denotes d0 with (possibly) more vertices on the same edges: same kind, curves in the same order,
+    each curve of d1 goes through the vertices of d0 in order and adds only points on d0's edges"""
+    from . import oracle as O
+    if d0[0] != d1[0]:
+        return False
+    j0, j1 = O.shape_jordans(d0), O.shape_jordans(d1)
+    if len(j0) != len(j1):
+        return False
+    for a, b in zip(j0, j1):
+        if not (O.is_polygon(a) and O.is_polygon(b)):
+            if not U.jordan_same(a, b, exact, rotate=False):
+                return False
+            continue
+        va, vb = [s[0] for s in a], [s[0] for s in b]
+        if va[0] != vb[0]:
+            return False
+        i = 0
+        for k, p in enumerate(vb):
+            if i < len(va) and p == va[i]:
+                i += 1
+            else:
+                # p must lie on the edge va[i-1] -> va[i % n]
+                q0, q1 = va[i - 1], va[i % len(va)]
+                if not O.on_edge(q0, q1, p):
+                    return False
+        if i != len(va):
+            return False
+    return True
